@@ -5,16 +5,7 @@ HERE = os.path.dirname(os.path.dirname(os.path.abspath(__file__)))
 sys.path.insert(0, HERE)
 sys.dont_write_bytecode = True
 
-NA = {
-    'C15': 'per-frame byte/packet counts and the DATA2/1/0 sequence are arithmetic over runtime counters; no structural '
-           'clause separates from the arithmetic (endpoint gating is decided under C12)',
-    'C27': 'slice correctness is index/length/valid-mask arithmetic over parametric widths and runtime start positions; '
-           'no guard or wiring clause is a necessary condition on its own',
-    'C32': 'data-dependent byte compaction through a generated 16-case switch and shift buffer; order/no-loss is a '
-           'relational property of runtime data that a syntax-level rule cannot bound',
-    'C34': 'shift-select datapath whose correctness is value-level (runtime alignment offset); no sound static clause',
-    'C55': 'exactness is a count over a shift-register length; any rule would be a frozen three-line fragment',
-}
+NA = {}     # every property now has (or is getting) a rule module; see DESIGN.md section 5
 props = [json.loads(l) for l in open(os.path.join(HERE, 'properties.jsonl'))]
 fix_commits = []
 try:
@@ -26,7 +17,7 @@ checks, na = [], []
 for p in props:
     pid = p['id']
     path = os.path.join(HERE, 'sa', 'rules', pid + '.py')
-    if os.path.exists(path):
+    if os.path.exists(path) and pid not in os.environ.get('EXCLUDE', '').split():
         mod = importlib.import_module('sa.rules.' + pid)
         checks.append({
             'property_id': pid,
@@ -44,11 +35,15 @@ for p in props:
             },
             'level_note': 'Trusted: CPython ast; the extractor in /verif/sa and its model of the Amaranth DSL; the spec '
                           'constants quoted in sa/rules/%s.py. No part of /repo is imported, simulated or solved.' % pid,
-            'technique': getattr(mod, 'TECHNIQUE', 'static analysis: AST abstract interpretation -> module IR; '
-                                 'FSM-graph / guard-conjunct / driver / constant-folding rules'),
+            'technique': getattr(mod, 'TECHNIQUE', 'static analysis of the source text: Python-ast abstract interpretation of '
+                                 'elaborate() -> module IR; each obligation is decided (A) structurally (guard conjuncts, drivers, '
+                                 'statement order, FSM-graph reachability/cuts, folded constants, widths, wiring), (B) by a one-cycle '
+                                 'truth table of the extracted expressions over all valuations of their atoms (data symbolic / affine '
+                                 'over GF(2)), or (C) by an exhaustive fixpoint over a finite abstraction (FSM state x counter region x '
+                                 'flags x reference monitor) under all inputs; /repo is never imported or run, no solver'),
         })
     else:
-        na.append({'property_id': pid, 'reason': NA.get(pid, 'rule set designed (DESIGN.md section 4) but not built yet; not claimed')})
+        na.append({'property_id': pid, 'reason': NA.get(pid, 'rule module not finished/validated at the time of this commit; not claimed')})
 man = {
     'version': 1,
     'setup_cmd': '/venv/bin/python -m compileall -q /verif/sa /verif/vcheck',
